@@ -1,7 +1,7 @@
 ----------------------------- MODULE TraceDevice -----------------------------
 (* Batch trace validation for Device.tla.  TRACE_FILE: JSON array of traces
      [ dep |-> deployment record (see Device.tla), ev |-> << event, ... >> ]
-   event = [ o |-> "assign" | "setvalue" | "new" | "get" | "state" | "ven" | "gen" | "sel" | "read" | "reset" | "tick", args...,
+   event = [ o |-> "assign" | "assignfail" | "setvalue" | "new" | "get" | "state" | "ven" | "gen" | "sel" | "read" | "reset" | "tick", args...,
              obs |-> [ val, vst, ven, gen, ntasks, raised (0/1), wireok (0/1: every emitted message re-parses unchanged),
                        pub |-> << [t, v, st, els |-> << <<name, value>> >>] >>,
                        hlog |-> << [h, ev, seen, req, old, new, late (0/1)] >> ] ]
@@ -24,6 +24,7 @@ OpTick(St) == TickAll(Fresh(St), Len(St.tasks))
 
 Post == CASE Ev.o = "assign"   -> OpAssign(D, S, Ev.v, Ev.e, Ev.x)
           [] Ev.o = "setvalue" -> OpSetValue(D, S, Ev.v, Ev.e, Ev.x)
+          [] Ev.o = "assignfail" -> OpAssignFail(D, S, Ev.v, Ev.e, Ev.x)
           [] Ev.o = "new"      -> OpNewVector(D, S, Ev.t, Ev.n, Ev.ch)
           [] Ev.o = "get"      -> OpGetProperties(D, S, Ev.t, Ev.n)
           [] Ev.o = "state"    -> OpSetState(D, S, Ev.v, Ev.st)
@@ -62,7 +63,7 @@ KindOK(v, ch) == \A i \in DOMAIN ch : ch[i][1] \in Range(D.vecs[v].elems) /\ ch[
 PropsOK(P, Q) ==
   /\ Ev.obs.wireok                                                            \* C07: every emitted message is valid and re-parses unchanged
   /\ RulePreserved(D, P, Q) /\ PubRuleOK(D, P, Q)                             \* C09
-  /\ (Ev.o = "assign" => AssignOnOK(D, P, Q, Ev.v, Ev.e, Ev.x))
+  /\ (Ev.o \in {"assign", "assignfail"} => AssignOnOK(D, P, Q, Ev.v, Ev.e, Ev.x))
   /\ (Ev.o = "sel" /\ (\A h \in DOMAIN D.hs : D.hs[h].v # Ev.v) => SelectOnOK(D, Q, Ev.v, Range(Ev.names)))
   /\ (Ev.o \in {"new", "get", "tick"} => ~Q.raised)                           \* C12
   /\ (Ev.o = "new" => FrameOK(D, P, Q, Ev.t, Ev.n))                           \* C06 / C12
@@ -136,7 +137,7 @@ ContractOK ==
                          /\ \A v \in DOMAIN PO.val : \A e \in DOMAIN PO.val[v] : (v # Ev.v \/ e # Ev.e) => QO.val[v][e] = PO.val[v][e])
   /\ ReadContractObs
   /\ RulePreserved(D, PO, QO) /\ PubRuleOK(D, PO, QO)
-  /\ (Ev.o = "assign" => AssignOnOK(D, PO, QO, Ev.v, Ev.e, Ev.x))
+  /\ (Ev.o \in {"assign", "assignfail"} => AssignOnOK(D, PO, QO, Ev.v, Ev.e, Ev.x))
   /\ (Ev.o = "sel" /\ (\A h \in DOMAIN D.hs : D.hs[h].v # Ev.v) => SelectOnOK(D, QO, Ev.v, Range(Ev.names)))
   /\ (Ev.o \in {"new", "get", "tick"} => ~QO.raised)
   /\ (Ev.o = "new" => FrameOK(D, PO, QO, Ev.t, Ev.n))
